@@ -14,7 +14,7 @@ LEVEL_TEXT = ("Static structural proof of necessary conditions: (R7.1) every nor
               "computed from the single adjustment (1 + header) computed in validate; (R7.3) in the closure of "
               "SpreadsheetValidator.validate no possibly-None conversion result is used arithmetically or "
               "dereferenced unguarded. Equality with string-level validation and shuffle invariance are NOT decided.")
-LEVEL_EXTRA = "Added after the seeded evaluation: (R7.4) the column-structure checks see the caller's table, not the onset-sorted copy; (R7.5) the onset pass maps back to file rows through original_index; (R7.6) a row is excluded from the row-level and temporal checks only under an error-severity test. (R7.7) no issue list is discarded inside the table-validation modules; (R7.8) a column assigned during assembly carries the frame's own index; (R7.9) index labels are never used as positions (or vice versa) in the validators and df_util, and the per-row mask is computed over the file's own rows. (R7.10) float()/int() of table cell text only inside a ValueError handler. (R7.11) push_error_context replaces a context value only when it is None, never on a truth test."
+LEVEL_EXTRA = "Added after the seeded evaluation: (R7.4) the column-structure checks see the caller's table, not the onset-sorted copy; (R7.5) the onset pass maps back to file rows through original_index; (R7.6) a row is excluded from the row-level and temporal checks only under an error-severity test. (R7.7) no issue list is discarded inside the table-validation modules; (R7.8) a column assigned during assembly carries the frame's own index; (R7.9) index labels are never used as positions (or vice versa) in the validators and df_util, and the per-row mask is computed over the file's own rows. (R7.10) float()/int() of table cell text only inside a ValueError handler. (R7.11) push_error_context replaces a context value only when it is None, never on a truth test. R7.11 also covers every loop over (context type, value) pairs of the reporter."
 
 FUNCS = ["validate", "_run_checks", "_run_onset_checks", "_validate_column_structure"]
 
@@ -300,6 +300,33 @@ def run(ctx):
                   "but count as missing, so they are replaced by the default and the issue is labelled with the wrong row/column",
                   desc="context tested against None only")
     ctx.floor("R7.11", "tests of the context value in push_error_context", n_none, 1)
+    # the same for every loop over (context type, context value) pairs of the reporter
+    n_pairs = 0
+    for f in prog.functions.values():
+        if f.module.name != "hed.errors.error_reporter":
+            continue
+        for lp in walk_no_nested(f.node):
+            if isinstance(lp, ast.For) and isinstance(lp.target, ast.Tuple) and len(lp.target.elts) == 2 \
+                    and all(isinstance(e, ast.Name) for e in lp.target.elts) and "type" in lp.target.elts[0].id \
+                    and "context" in norm(lp.iter):
+                n_pairs += 1
+                ctx.saw(f)
+                cv = lp.target.elts[1].id
+                for t in [x.test for x in ast.walk(lp) if isinstance(x, (ast.If, ast.IfExp, ast.While))]:
+                    stack, truthy = [t], False
+                    while stack:
+                        x = stack.pop()
+                        if isinstance(x, ast.BoolOp):
+                            stack.extend(x.values)
+                        elif isinstance(x, ast.UnaryOp) and isinstance(x.op, ast.Not):
+                            stack.append(x.operand)
+                        elif isinstance(x, ast.Name) and x.id == cv:
+                            truthy = True
+                    ctx.check(not truthy, "R7.11", f.qualname, t, loc(f, t),
+                              "a context value is truth-tested while contexts are copied into the issue: column 0 of a sheet without "
+                              "a header (and row 0, key '') is falsy, so issues of the first column lose their column label",
+                              desc="context values not truth-tested")
+    ctx.floor("R7.11", "loops over (context type, value) pairs in the reporter", n_pairs, 1)
 
 
 def _adj_locals(validate):
